@@ -51,8 +51,8 @@ Qed.
 Definition C02_on (n : netlist) : Prop :=
   n_algo n = "IdTable" /\
   forall s t, In s (n_nis n) -> In t (n_nis n) -> ni_name s <> ni_name t ->
-    (may_req s t = true -> delivers n Req s t (hdr_of_id (ni_id t))) /\
-    (may_rsp s t = true -> delivers n Rsp s t (hdr_of_id (ni_id t))).
+    (may_req s t = true -> delivers n Req s t (hdr_of_id n (ni_id t))) /\
+    (may_rsp s t = true -> delivers n Rsp s t (hdr_of_id n (ni_id t))).
 
 Theorem chk_C02_sound n : chk_C02 n = [] -> C02_on n.
 Proof.
